@@ -1,5 +1,5 @@
 From Coq Require Import List NArith Bool Lia ZifyBool ZifyNat ZifyN.
-From TT Require Import Lib.BytesL Model.ClientRandom.
+From TT Require Import Lib.BytesL Model.ClientRandom Spec.TlsRecords.
 Import ListNotations.
 Open Scope N_scope.
 
@@ -136,59 +136,258 @@ Proof.
   intros H. unfold nthN, takeN, dropN. rewrite nth_firstn_N by lia. rewrite nth_skipn_N. f_equal. lia.
 Qed.
 
-Lemma decide_found frag r :
-  decide_fragment frag = XFound r ->
-  nthN frag 0 = 1 /\ 38 <= lenN frag /\ r = takeN 32 (dropN 6 frag).
+(* ---- one round of the record loop ---- *)
+Lemma takeN_app_keep {A} k (a b : list A) : k <= lenN a -> takeN k (a ++ b) = takeN k a.
+Proof. apply takeN_app_le. Qed.
+
+Lemma frag_ext rlen (b t : list N) :
+  5 <= lenN b ->
+  exists x, takeN rlen (dropN 5 (b ++ t)) = takeN rlen (dropN 5 b) ++ x
+            /\ (rlen <= lenN (dropN 5 b) -> x = []).
 Proof.
-  unfold decide_fragment. destruct (lenN frag <? 4) eqn:E1; [discriminate|].
-  set (mlen := be (takeN 3 (dropN 1 frag))).
-  destruct (lenN frag <? 4 + mlen) eqn:E2; [discriminate|].
-  destruct (nthN frag 0 =? 1) eqn:E3; [|discriminate].
-  set (body := takeN mlen (dropN 4 frag)).
-  destruct (hello_ok body) eqn:H; [|discriminate]. intros X. inversion X; subst r; clear X.
-  unfold hello_ok in H. apply andb_true_iff in H. destruct H as [H34 _].
-  assert (Lb : lenN body = mlen) by (unfold body; rewrite lenN_takeN, lenN_dropN; lia).
-  split; [lia|]. split; [lia|].
-  unfold body. rewrite dropN_takeN, takeN_takeN, dropN_dropN.
-  replace (N.min 32 (mlen - 2)) with 32 by lia. reflexivity.
+  intros L5. rewrite dropN_app_le by lia.
+  destruct (N.le_gt_cases rlen (lenN (dropN 5 b))) as [H|H].
+  - exists []. rewrite takeN_app_le by exact H. rewrite app_nil_r. split; [reflexivity|intros _; reflexivity].
+  - exists (takeN (rlen - lenN (dropN 5 b)) t). split; [|intros H2; lia].
+    rewrite takeN_app_ge by lia. rewrite (takeN_all rlen (dropN 5 b)) by lia. reflexivity.
 Qed.
 
-(* exactness: a value is reported only for a handshake record starting with a ClientHello, and it
-   is bytes 11..43 of the record: the random field *)
-Lemma extract_c_found data r :
-  extract_c data = XFound r ->
-  nthN data 0 = 22 /\ nthN data 5 = 1 /\ 43 <= lenN data /\ r = takeN 32 (dropN 11 data).
+Lemma header_same (b t : list N) :
+  5 <= lenN b ->
+  nthN (b ++ t) 0 = nthN b 0 /\ be (takeN 2 (dropN 3 (b ++ t))) = be (takeN 2 (dropN 3 b)).
 Proof.
-  unfold extract_c. destruct (lenN data <? 5) eqn:E1; [discriminate|].
-  set (rlen := be (takeN 2 (dropN 3 data))).
-  destruct (MAX_RECORD_LEN <? rlen); [discriminate|].
-  destruct (lenN data <? 5 + rlen) eqn:E2; [discriminate|].
-  destruct (nthN data 0 =? 22) eqn:E3.
-  - intros X. apply decide_found in X. destruct X as (A & B & C).
-    rewrite lenN_takeN, lenN_dropN in B.
-    split; [lia|]. split.
-    + rewrite nthN_take_drop in A by lia. exact A.
-    + split; [lia|]. rewrite C. rewrite dropN_takeN, takeN_takeN, dropN_dropN.
-      replace (N.min 32 (rlen - 6)) with 32 by lia. reflexivity.
-  - destruct ((nthN data 0 =? 20) || (nthN data 0 =? 21) || (nthN data 0 =? 23)); [discriminate|].
-    destruct (nthN data 0 =? 24); discriminate.
+  intros L5. split; [apply nthN_app_l; lia|].
+  rewrite dropN_app_le by lia. rewrite takeN_app_le; [reflexivity|rewrite lenN_dropN; lia].
+Qed.
+
+Lemma nthN_takeN_0 k (l : list N) : 0 < k -> nthN (takeN k l) 0 = nthN l 0.
+Proof. intros H. unfold nthN, takeN. apply nth_firstn_N. lia. Qed.
+
+Lemma record_step_done b t acc e :
+  record_step b acc = RDone e -> e <> XNeedMore -> record_step (b ++ t) acc = RDone e.
+Proof.
+  unfold record_step. intros H NE.
+  destruct (lenN b <? 5) eqn:E1; [inversion H; congruence|].
+  assert (L5 : 5 <= lenN b) by lia.
+  replace (lenN (b ++ t) <? 5) with false by (rewrite lenN_app; lia).
+  destruct (header_same b t L5) as [H0 HL]. rewrite H0, HL.
+  set (rlen := be (takeN 2 (dropN 3 b))) in *.
+  destruct (negb (nthN b 0 =? 22) || (rlen =? 0) || (MAX_RECORD_LEN <? rlen)) eqn:E2; [exact H|].
+  destruct (frag_ext rlen b t L5) as (x & FX & Xnil). rewrite FX.
+  set (frag := takeN rlen (dropN 5 b)) in *.
+  set (acc1 := takeN NEEDED (acc ++ frag)) in *.
+  assert (Pre : forall k, k <= lenN acc1 -> k <= 38 -> takeN k (takeN NEEDED (acc ++ frag ++ x)) = takeN k acc1).
+  { intros k Hk Hk2. unfold acc1 in *. rewrite !takeN_takeN. unfold NEEDED in *.
+    replace (N.min k 38) with k by lia. rewrite app_assoc. apply takeN_app_le.
+    rewrite lenN_takeN in Hk. lia. }
+  destruct ((0 <? lenN acc1) && negb (nthN acc1 0 =? 1)) eqn:E3.
+  - (* the first gathered byte is not a ClientHello type: it stays what it is *)
+    apply andb_prop in E3. destruct E3 as [Epos Ene].
+    assert (N1 : nthN (takeN NEEDED (acc ++ frag ++ x)) 0 = nthN acc1 0).
+    { rewrite <- (nthN_takeN_0 1 (takeN NEEDED (acc ++ frag ++ x))) by lia.
+      rewrite (Pre 1) by (unfold NEEDED; lia). apply nthN_takeN_0. lia. }
+    assert (P1 : 0 < lenN (takeN NEEDED (acc ++ frag ++ x))).
+    { unfold acc1 in Epos. rewrite lenN_takeN, !lenN_app in *. unfold NEEDED in *. lia. }
+    rewrite N1, Ene. replace (0 <? lenN (takeN NEEDED (acc ++ frag ++ x))) with true by lia. exact H.
+  - destruct (NEEDED <=? lenN acc1) eqn:E4.
+    + (* enough bytes: they are the same 38 bytes *)
+      assert (Full : takeN NEEDED (acc ++ frag ++ x) = acc1).
+      { assert (L38 : lenN acc1 = 38) by (unfold acc1 in *; rewrite lenN_takeN in *; unfold NEEDED in *; lia).
+        rewrite <- (takeN_all NEEDED (takeN NEEDED (acc ++ frag ++ x))).
+        2:{ rewrite lenN_takeN. unfold NEEDED. lia. }
+        rewrite (Pre NEEDED) by (unfold NEEDED; lia). apply takeN_all. unfold NEEDED. lia. }
+      rewrite Full, E3, E4. exact H.
+    + destruct (lenN frag <? rlen) eqn:E5; [inversion H; congruence|discriminate H].
+Qed.
+
+Lemma record_step_next b t acc rest acc' :
+  record_step b acc = RNext rest acc' -> record_step (b ++ t) acc = RNext (rest ++ t) acc'.
+Proof.
+  unfold record_step. intros H.
+  destruct (lenN b <? 5) eqn:E1; [discriminate|].
+  assert (L5 : 5 <= lenN b) by lia.
+  replace (lenN (b ++ t) <? 5) with false by (rewrite lenN_app; lia).
+  destruct (header_same b t L5) as [H0 HL]. rewrite H0, HL.
+  set (rlen := be (takeN 2 (dropN 3 b))) in *.
+  destruct (negb (nthN b 0 =? 22) || (rlen =? 0) || (MAX_RECORD_LEN <? rlen)) eqn:E2; [discriminate|].
+  destruct (frag_ext rlen b t L5) as (x & FX & Xnil).
+  set (frag := takeN rlen (dropN 5 b)) in *.
+  destruct ((0 <? lenN (takeN NEEDED (acc ++ frag))) && negb (nthN (takeN NEEDED (acc ++ frag)) 0 =? 1)) eqn:E3; [discriminate|].
+  destruct (NEEDED <=? lenN (takeN NEEDED (acc ++ frag))) eqn:E4; [discriminate|].
+  destruct (lenN frag <? rlen) eqn:E5; [discriminate|].
+  assert (Complete : rlen <= lenN (dropN 5 b)).
+  { unfold frag in E5. rewrite lenN_takeN in E5. lia. }
+  rewrite FX, (Xnil Complete), app_nil_r. fold frag. rewrite E3, E4, E5.
+  inversion H; subst. f_equal. rewrite dropN_app_le; [reflexivity|]. rewrite lenN_dropN in Complete. lia.
+Qed.
+
+Lemma reassemble_more_fuel f : forall d a e,
+  reassemble f d a = e -> e <> XNeedMore -> reassemble (S f) d a = e.
+Proof.
+  induction f as [|f IH]; intros d a e H NE; [cbn in H; congruence|].
+  cbn [reassemble] in H |- *. destruct (record_step d a) as [e0|rest acc']; [exact H|].
+  apply IH; assumption.
+Qed.
+
+Lemma reassemble_fuel_le f f' d a e :
+  (f <= f')%nat -> reassemble f d a = e -> e <> XNeedMore -> reassemble f' d a = e.
+Proof.
+  intros L. induction L as [|m L IH]; intros H NE; [exact H|]. apply reassemble_more_fuel; auto.
+Qed.
+
+Lemma reassemble_stable f : forall b t acc e,
+  reassemble f b acc = e -> e <> XNeedMore -> reassemble f (b ++ t) acc = e.
+Proof.
+  induction f as [|f IH]; intros b t acc e H NE; [cbn in H; congruence|].
+  cbn [reassemble] in H |- *. destruct (record_step b acc) as [e0|rest acc'] eqn:S.
+  - subst e0. rewrite (record_step_done b t acc e S NE). reflexivity.
+  - rewrite (record_step_next b t acc rest acc' S). apply IH; assumption.
 Qed.
 
 Lemma extract_c_stable b t e : extract_c b = e -> e <> XNeedMore -> extract_c (b ++ t) = e.
 Proof.
   unfold extract_c. intros H NE.
-  destruct (lenN b <? 5) eqn:E1; [congruence|].
-  assert (L5 : 5 <= lenN b) by lia.
-  replace (lenN (b ++ t) <? 5) with false by (rewrite lenN_app; lia).
-  rewrite (nthN_app_l b t 0) by lia.
-  replace (takeN 2 (dropN 3 (b ++ t))) with (takeN 2 (dropN 3 b)).
-  2:{ rewrite dropN_app_le by lia. rewrite takeN_app_le; [reflexivity|rewrite lenN_dropN; lia]. }
-  set (rlen := be (takeN 2 (dropN 3 b))) in *.
-  destruct (MAX_RECORD_LEN <? rlen); [exact H|].
-  destruct (lenN b <? 5 + rlen) eqn:E2; [congruence|].
-  replace (lenN (b ++ t) <? 5 + rlen) with false by (rewrite lenN_app; lia).
-  replace (takeN rlen (dropN 5 (b ++ t))) with (takeN rlen (dropN 5 b)); [exact H|].
-  rewrite dropN_app_le by lia. rewrite takeN_app_le; [reflexivity|rewrite lenN_dropN; lia].
+  apply (reassemble_fuel_le (S (length b))); [rewrite app_length; lia| |exact NE].
+  apply reassemble_stable; assumption.
+Qed.
+
+(* a further round always finds the data at least six bytes shorter: the fuel of extract_c is never exhausted *)
+Lemma record_step_shrinks d a rest a' : record_step d a = RNext rest a' -> (length rest + 6 <= length d)%nat.
+Proof.
+  unfold record_step. destruct (lenN d <? 5) eqn:E1; [discriminate|].
+  set (rlen := be (takeN 2 (dropN 3 d))).
+  destruct (negb (nthN d 0 =? 22) || (rlen =? 0) || (MAX_RECORD_LEN <? rlen)) eqn:E2; [discriminate|].
+  set (frag := takeN rlen (dropN 5 d)).
+  destruct ((0 <? lenN (takeN NEEDED (a ++ frag))) && negb (nthN (takeN NEEDED (a ++ frag)) 0 =? 1)); [discriminate|].
+  destruct (NEEDED <=? lenN (takeN NEEDED (a ++ frag))); [discriminate|].
+  destruct (lenN frag <? rlen) eqn:E5; [discriminate|]. intros H. inversion H; subst.
+  apply orb_false_elim in E2. destruct E2 as [E2 _]. apply orb_false_elim in E2. destruct E2 as [_ E0].
+  unfold frag in E5. rewrite lenN_takeN, lenN_dropN in E5.
+  assert (L : lenN (dropN (5 + rlen) d) + 6 <= lenN d) by (rewrite lenN_dropN; lia).
+  unfold lenN in L. lia.
+Qed.
+
+Lemma reassemble_fuel f : forall f' d a,
+  (length d < f)%nat -> (length d < f')%nat -> reassemble f d a = reassemble f' d a.
+Proof.
+  induction f as [|f IH]; intros f' d a L L'; [lia|]. destruct f' as [|f']; [lia|].
+  cbn [reassemble]. destruct (record_step d a) as [e|rest a'] eqn:S; [reflexivity|].
+  pose proof (record_step_shrinks d a rest a' S). apply IH; lia.
+Qed.
+
+(* exactness: a value is reported only when the handshake byte stream of the leading records starts with a ClientHello
+   and has its first 38 bytes, and it is the random field of that message *)
+Lemma hs_same_nth (l : list N) i : nthN l i = TlsRecords.byte_at l i.
+Proof. reflexivity. Qed.
+
+Lemma reassemble_found f : forall d a r,
+  lenN a < 38 ->
+  reassemble f d a = XFound r ->
+  let h := a ++ TlsRecords.hs_stream f d in
+  nthN h 0 = 1 /\ 38 <= lenN h /\ r = takeN 32 (dropN 6 h).
+Proof.
+  induction f as [|f IH]; intros d a r La H; [cbn in H; discriminate|].
+  cbn [reassemble] in H. cbn [TlsRecords.hs_stream]. unfold record_step in H.
+  destruct (lenN d <? 5) eqn:E1; [discriminate|].
+  change (TlsRecords.byte_at d 0) with (nthN d 0).
+  set (rlen := be (takeN 2 (dropN 3 d))) in *.
+  destruct (nthN d 0 =? 22) eqn:E22; cbn [negb orb] in H |- *; [|discriminate].
+  destruct (rlen =? 0) eqn:E0; cbn [orb] in H; [discriminate|].
+  destruct (MAX_RECORD_LEN <? rlen) eqn:EM; [discriminate|].
+  change (TlsRecords.MAX_FRAGMENT <? rlen) with (MAX_RECORD_LEN <? rlen). rewrite EM. cbn [orb].
+  set (frag := takeN rlen (dropN 5 d)) in *.
+  set (acc1 := takeN NEEDED (a ++ frag)) in *.
+  destruct ((0 <? lenN acc1) && negb (nthN acc1 0 =? 1)) eqn:E3; [discriminate|].
+  destruct (NEEDED <=? lenN acc1) eqn:E4.
+  - inversion H; subst r; clear H. cbv zeta.
+    set (tl := if lenN frag <? rlen then [] else TlsRecords.hs_stream f (dropN (5 + rlen) d)).
+    assert (L38 : 38 <= lenN (a ++ frag)).
+    { unfold acc1 in E4. rewrite lenN_takeN in E4. unfold NEEDED in *. lia. }
+    assert (A1 : acc1 = takeN 38 (a ++ frag ++ tl)).
+    { unfold acc1, NEEDED. rewrite app_assoc. symmetry. apply takeN_app_le. exact L38. }
+    assert (P : 0 < lenN acc1) by (unfold acc1; rewrite lenN_takeN; unfold NEEDED; lia).
+    replace (0 <? lenN acc1) with true in E3 by lia. cbn [andb] in E3. apply negb_false_iff in E3.
+    split; [|split].
+    + rewrite <- (nthN_takeN_0 38) by lia. rewrite <- A1. apply N.eqb_eq. exact E3.
+    + rewrite !lenN_app in *. lia.
+    + rewrite A1. rewrite dropN_takeN, takeN_takeN. replace (N.min 32 (38 - 6)) with 32 by lia. reflexivity.
+  - destruct (lenN frag <? rlen) eqn:E5; [discriminate|].
+    assert (Short : lenN (a ++ frag) < 38).
+    { unfold acc1 in E4. rewrite lenN_takeN in E4. unfold NEEDED in *. lia. }
+    assert (A1 : acc1 = a ++ frag) by (unfold acc1, NEEDED; apply takeN_all; lia).
+    rewrite A1 in H. specialize (IH _ _ _ Short H). cbv zeta in IH |- *.
+    rewrite <- app_assoc in IH. exact IH.
+Qed.
+
+Lemma reassemble_complete f : forall d a,
+  lenN a < 38 ->
+  let h := a ++ TlsRecords.hs_stream f d in
+  38 <= lenN h -> nthN h 0 = 1 ->
+  reassemble f d a = XFound (takeN 32 (dropN 6 h)).
+Proof.
+  induction f as [|f IH]; intros d a La h L38 H1.
+  { unfold h in L38. cbn [TlsRecords.hs_stream] in L38. rewrite app_nil_r in L38. lia. }
+  unfold h in *. clear h. cbn [TlsRecords.hs_stream] in L38, H1 |- *. cbn [reassemble]. unfold record_step.
+  destruct (lenN d <? 5) eqn:E1; [rewrite app_nil_r in L38; lia|].
+  change (TlsRecords.byte_at d 0) with (nthN d 0) in *.
+  set (rlen := be (takeN 2 (dropN 3 d))) in *.
+  destruct (nthN d 0 =? 22) eqn:E22; cbn [negb orb] in *; [|rewrite app_nil_r in L38; lia].
+  change (TlsRecords.MAX_FRAGMENT <? rlen) with (MAX_RECORD_LEN <? rlen) in *.
+  destruct ((rlen =? 0) || (MAX_RECORD_LEN <? rlen)) eqn:E0; [rewrite app_nil_r in L38; lia|].
+  set (frag := takeN rlen (dropN 5 d)) in *.
+  set (tl := if lenN frag <? rlen then [] else TlsRecords.hs_stream f (dropN (5 + rlen) d)) in *.
+  set (acc1 := takeN NEEDED (a ++ frag)).
+  assert (Pre : acc1 = takeN (lenN acc1) (a ++ frag ++ tl)).
+  { unfold acc1, NEEDED. rewrite lenN_takeN, app_assoc.
+    destruct (N.le_gt_cases 38 (lenN (a ++ frag))) as [G|G].
+    - replace (N.min 38 (lenN (a ++ frag))) with 38 by lia. symmetry. apply takeN_app_le. exact G.
+    - replace (N.min 38 (lenN (a ++ frag))) with (lenN (a ++ frag)) by lia.
+      rewrite takeN_exact. apply takeN_all. lia. }
+  assert (First : 0 < lenN acc1 -> nthN acc1 0 = 1).
+  { intros P. rewrite Pre. rewrite nthN_takeN_0 by exact P. exact H1. }
+  destruct (0 <? lenN acc1) eqn:EP.
+  2:{ cbn [andb]. destruct (NEEDED <=? lenN acc1) eqn:E4; [unfold NEEDED in E4; lia|].
+      (* nothing gathered yet although the fragment is not empty: impossible *)
+      exfalso. apply orb_false_elim in E0. destruct E0 as [E0 _].
+      unfold acc1, NEEDED in EP. rewrite lenN_takeN, lenN_app in EP.
+      assert (lenN frag = 0) by lia. assert (lenN a = 0) by lia.
+      unfold frag in H. rewrite lenN_takeN, lenN_dropN in H.
+      destruct (lenN frag <? rlen) eqn:E5.
+      - unfold tl in L38. rewrite !lenN_app, lenN_nil in L38. lia.
+      - unfold frag in E5. rewrite lenN_takeN, lenN_dropN in E5. lia. }
+  rewrite (First ltac:(lia)). cbn [N.eqb negb andb]. change (1 =? 1) with true. cbn [negb andb].
+  destruct (NEEDED <=? lenN acc1) eqn:E4.
+  - f_equal. assert (L : lenN acc1 = 38) by (unfold acc1 in *; rewrite lenN_takeN in *; unfold NEEDED in *; lia).
+    rewrite Pre, L. rewrite dropN_takeN, takeN_takeN. replace (N.min 32 (38 - 6)) with 32 by lia. reflexivity.
+  - assert (Short : lenN (a ++ frag) < 38).
+    { unfold acc1 in E4. rewrite lenN_takeN in E4. unfold NEEDED in *. lia. }
+    assert (A1 : acc1 = a ++ frag) by (unfold acc1, NEEDED; apply takeN_all; lia).
+    destruct (lenN frag <? rlen) eqn:E5.
+    + unfold tl in L38. rewrite app_nil_r in L38. lia.
+    + rewrite A1. unfold tl in *. rewrite app_assoc in L38, H1 |- *. apply IH; assumption.
+Qed.
+
+Lemma extract_c_complete data r :
+  TlsRecords.client_hello_random (TlsRecords.handshake_bytes data) = Some r -> extract_c data = XFound r.
+Proof.
+  unfold extract_c, TlsRecords.handshake_bytes, TlsRecords.client_hello_random. intros H.
+  destruct ((38 <=? lenN (hs_stream (S (length data)) data)) && (TlsRecords.byte_at (hs_stream (S (length data)) data) 0 =? 1)) eqn:E; [|discriminate].
+  apply andb_prop in E. destruct E as [E1 E2]. inversion H; subst r.
+  assert (L0 : lenN (@nil N) < 38) by (rewrite lenN_nil; lia).
+  apply (reassemble_complete (S (length data)) data [] L0); cbn [app].
+  - lia.
+  - apply N.eqb_eq. exact E2.
+Qed.
+
+Lemma extract_c_found data r :
+  extract_c data = XFound r ->
+  TlsRecords.client_hello_random (TlsRecords.handshake_bytes data) = Some r.
+Proof.
+  unfold extract_c, TlsRecords.handshake_bytes, TlsRecords.client_hello_random. intros H.
+  assert (L0 : lenN (@nil N) < 38) by (rewrite lenN_nil; lia).
+  destruct (reassemble_found _ _ _ _ L0 H) as (A & B & C). cbn [app] in A, B, C.
+  change (TlsRecords.byte_at (hs_stream (S (length data)) data) 0) with (nthN (hs_stream (S (length data)) data) 0).
+  rewrite A. replace (38 <=? _) with true by lia. cbn [andb N.eqb]. rewrite C. reflexivity.
 Qed.
 
 (* ---------- the wrapped stream yields the prebuffer, then the socket: nothing lost or reordered ---------- *)
